@@ -31,6 +31,9 @@ def run_variants(pid, jobs=8):
             if "patch" in m:
                 if not s.apply_patch(m["patch"]):
                     return dict(id=m["id"], status="skipped", why="patch does not apply to the current tree")
+            elif "line" in m:
+                if not s.edit_line(m["file"], m["line"], m["before"], m["after"]):
+                    return dict(id=m["id"], status="skipped", why="the mutated line is no longer there")
             elif not s.edit(m["file"], m["find"], m["repl"], m.get("count", 1)):
                 return dict(id=m["id"], status="skipped", why="anchor text not found exactly once in the current tree")
             for extra in m.get("also", []):
